@@ -17,7 +17,9 @@ func init() {
 			"(R-C06-FASTPATH) in defaultPolicy.Add, past the resident/oversize tests, a rejection, an evict.del or a sampling call is reachable only across an edge on which a fresh roomLeft(cost) is negative: an item that fits is admitted without victims; " +
 			"(R-C06-ACCOUNT) the accounted cost consulted by that test is exact (used == sum of keyCosts preserved by every writer, shared with C03); " +
 			"(R-C06-REMOVERS) removal from lockedMap.data happens only in lockedMap.Del/Clear, which are unreachable (call graph) from Get, GetTTL, IterValues, Wait, MaxCost, RemainingCost, UpdateMaxCost, the Metrics readers and SetWithTTL; every store.Del of the applier/sweep has a key that is a policy victim, a tombstone's key, or an expiry-bucket key; " +
-			"(R-C06-ADDSTORE) an admitted new item always reaches store.Set. " +
+			"(R-C06-ADDSTORE) an admitted new item always reaches store.Set; " +
+			"(R-C06-REFUSALS) lockedMap.get/Set/Update/Del decline only across a documented refusal edge (absent key, conflict mismatch, shouldUpdate veto, nil item, elapsed TTL for reads); " +
+			"(R-C06-CLEAR) Cache.Clear empties the cost accounting and the map together, after the applier was stopped (shared with C13/C15). " +
 			"NOT decided: equivalence with a reference map over all histories and applier lags.",
 		Run: runC06,
 	})
@@ -31,71 +33,12 @@ func runC06(c *Ctx) {
 	L.Rule("R-C06-FASTPATH", "defaultPolicy.Add: reject / evict.del / sampling only behind an edge where a fresh roomLeft(cost) < 0", 1)
 	L.Rule("R-C06-ACCOUNT", "the accounted cost the fast path consults is exact: every writer keeps used == sum(keyCosts) (shared with C03)", 4)
 	L.Rule("R-C06-REMOVERS", "map removal only in lockedMap.Del/Clear; unreachable from read-only API and SetWithTTL; applier Del keys are victims, tombstones or expiry keys", 12)
+	L.Rule("R-C06-CLEAR", "Cache.Clear empties the cost accounting and the map together and only after the applier was stopped: a policy that keeps keys the map lost rejects their next Set as a duplicate", 3)
+	L.Rule("R-C06-REFUSALS", "lockedMap.Update/Set/get decline only for the documented reasons (absent key, conflict mismatch, shouldUpdate veto, nil item, elapsed TTL on reads): any other refusal makes a write vanish or a resident entry unreadable", 4)
 	L.Rule("R-C06-ADDSTORE", "admitted new item always reaches store.Set", 1)
 
 	// ---- R-C06-WAIT
-	c.Group("R-C06-WAIT", "Cache.Wait", func() {
-		fn := P.Fn("ristretto", "Cache", "Wait")
-		L.Analysed(fname(fn))
-		tb := newTB(fn)
-		var mkc *ssa.MakeChan
-		eachInstr(fn, func(in ssa.Instruction) {
-			if m, ok := in.(*ssa.MakeChan); ok {
-				mkc = m
-			}
-		})
-		if mkc == nil || !isConst(mkc.Size, "0") {
-			L.Fail("R-C06-WAIT", "Cache.Wait#chan", "Wait does not create a fresh unbuffered channel for its marker", fn.Pos())
-			return
-		}
-		var send *ssa.Send
-		problem := ""
-		for _, s := range sendsIn(fn) {
-			if !Match("fld[setBuf](p[0])", tb.T(s.Chan), nil) {
-				continue
-			}
-			if s.Sel != nil {
-				problem = "the marker is sent from a select: it can be dropped or reordered and Wait would return (or hang) without the writes being applied"
-				continue
-			}
-			send = s.In.(*ssa.Send)
-		}
-		if send == nil {
-			if problem == "" {
-				problem = "Wait does not send a marker on setBuf"
-			}
-			L.Fail("R-C06-WAIT", "Cache.Wait#send", problem, fn.Pos())
-			return
-		}
-		a := structValueAlloc(send.X)
-		lf := litFields(a)
-		if a == nil || len(lf["wait"]) != 1 || lf["wait"][0].Val != ssa.Value(mkc) {
-			L.Fail("R-C06-WAIT", "Cache.Wait#send", "the item sent does not carry the fresh channel in its wait field", send.Pos())
-			return
-		}
-		if len(lf) != 1 {
-			L.Fail("R-C06-WAIT", "Cache.Wait#send", "the marker item sets fields other than wait", send.Pos())
-			return
-		}
-		isRecv := func(in ssa.Instruction) bool {
-			for _, r := range recvsIn(fn) {
-				if r.In == in && r.Sel == nil && r.Chan == ssa.Value(mkc) {
-					return true
-				}
-			}
-			return false
-		}
-		bad1, p1 := mustPass(after(mkc), isInstr(send), nil)
-		bad2, p2 := mustPass(after(send), isRecv, nil)
-		if bad1 != nil {
-			L.Fail("R-C06-WAIT", "Cache.Wait#send", "a path returns without sending the marker (block path "+pathString(p1)+")", instrPos(bad1))
-		} else if bad2 != nil {
-			L.Fail("R-C06-WAIT", "Cache.Wait#recv", "Wait can return without receiving on its marker channel (block path "+pathString(p2)+")", instrPos(bad2))
-		} else {
-			L.Ok("R-C06-WAIT", "Cache.Wait#send", "fresh unbuffered channel in Item.wait, blocking send on setBuf on every path", send.Pos())
-			L.Ok("R-C06-WAIT", "Cache.Wait#recv", "returns only after <-wait", send.Pos())
-		}
-	})
+	waitRule(c, "R-C06-WAIT")
 	for _, name := range []string{"processItems", "Clear"} {
 		name := name
 		c.Group("R-C06-WAIT", "Cache."+name+"#marker-first", func() {
@@ -306,6 +249,12 @@ func runC06(c *Ctx) {
 		}
 	})
 
+	// ---- R-C06-CLEAR (shared with C13/C15): a Clear that leaves policy and map disagreeing makes later Sets of the forgotten keys bounce as duplicates
+	clearResetParts(c, "R-C06-CLEAR", "cache", "evict")
+
+	// ---- R-C06-REFUSALS
+	refusalsRule(c, "R-C06-REFUSALS")
+
 	// ---- R-C06-ADDSTORE
 	c.Group("R-C06-ADDSTORE", "Cache.processItems", func() {
 		fn := P.Fn("ristretto", "Cache", "processItems")
@@ -352,6 +301,7 @@ func fastPathRule(c *Ctx, ruleID string) {
 			return false
 		}
 		neg := map[Edge]bool{}
+		roomIfs := map[*ssa.BasicBlock]bool{} // blocks ending in a comparison of a fresh room with a constant
 		for _, b := range fn.Blocks {
 			iff := lastIf(b)
 			if iff == nil {
@@ -359,9 +309,22 @@ func fastPathRule(c *Ctx, ruleID string) {
 			}
 			env := Env{}
 			pol := condPolarity(tb.T(iff.Cond), "lt(?r,c[0])", env)
+			if pol == 0 {
+				env = Env{}
+				pol = condPolarity(tb.T(iff.Cond), "le(?r,c[-1])", env)
+			}
 			if pol == 0 || !isFreshRoom(env["r"]) {
+				// a different comparison of the fresh room (e.g. room <= 0): neither edge proves room < 0
+				ct := tb.T(iff.Cond)
+				for ct.Op == "not" {
+					ct = ct.Args[0]
+				}
+				if len(ct.Args) == 2 && (isFreshRoom(ct.Args[0]) && ct.Args[1].Op == "c" || isFreshRoom(ct.Args[1]) && ct.Args[0].Op == "c") {
+					roomIfs[b] = true
+				}
 				continue
 			}
+			roomIfs[b] = true
 			if pol > 0 {
 				neg[Edge{b, 0}] = true
 			} else {
@@ -403,6 +366,174 @@ func fastPathRule(c *Ctx, ruleID string) {
 			L.Fail(ruleID, "defaultPolicy.Add", what+" is reachable for a new key without a fresh roomLeft(cost) having been negative (block path "+pathString(path)+"): an item that fits could be rejected or cause evictions", instrPos(bad))
 			return
 		}
-		L.Ok(ruleID, "defaultPolicy.Add", fmt.Sprintf("past the residency test, reject/evict/sample only behind %d edge(s) where roomLeft(cost) < 0", len(neg)), fn.Pos())
+		// every decision on a fresh room, taken on a side that does not prove room < 0, leads to no
+		// reject/evict/sample before the room is tested again (the loop condition included: `room <= 0`
+		// keeps evicting after an exact fit)
+		isRoomIf := func(in ssa.Instruction) bool {
+			_, isIf := in.(*ssa.If)
+			return isIf && roomIfs[in.Block()]
+		}
+		for b := range roomIfs {
+			for succ := 0; succ < 2; succ++ {
+				if neg[Edge{b, succ}] {
+					continue
+				}
+				if r, path := reach(Pos{b.Succs[succ], 0}, target, isRoomIf, nil); r != nil {
+					L.Fail(ruleID, "defaultPolicy.Add", "after a test of the fresh room that does not establish roomLeft(cost) < 0 (at "+P.pos(lastIf(b).Pos())+") an eviction/sampling/rejection follows (block path "+pathString(path)+"): with room == 0 the item fits exactly, yet another victim is taken or the newcomer is turned away", instrPos(r))
+					return
+				}
+			}
+		}
+		L.Ok(ruleID, "defaultPolicy.Add", fmt.Sprintf("past the residency test, reject/evict/sample only behind %d edge(s) where roomLeft(cost) < 0; %d room test(s), none continues evicting on its non-negative side", len(neg), len(roomIfs)), fn.Pos())
 	})
+}
+
+// waitRule: Cache.Wait stores a fresh unbuffered channel in Item.wait, sends the marker with a
+// blocking send on setBuf on every path and returns only after receiving on that very channel
+// (no select, no timeout). Shared by C06 and C05.
+func waitRule(c *Ctx, ruleID string) {
+	L, P := c.L, c.P
+	c.Group(ruleID, "Cache.Wait", func() {
+		fn := P.Fn("ristretto", "Cache", "Wait")
+		L.Analysed(fname(fn))
+		tb := newTB(fn)
+		var mkc *ssa.MakeChan
+		eachInstr(fn, func(in ssa.Instruction) {
+			if m, ok := in.(*ssa.MakeChan); ok {
+				mkc = m
+			}
+		})
+		if mkc == nil || !isConst(mkc.Size, "0") {
+			L.Fail(ruleID, "Cache.Wait#chan", "Wait does not create a fresh unbuffered channel for its marker", fn.Pos())
+			return
+		}
+		var send *ssa.Send
+		problem := ""
+		for _, s := range sendsIn(fn) {
+			if !Match("fld[setBuf](p[0])", tb.T(s.Chan), nil) {
+				continue
+			}
+			if s.Sel != nil {
+				problem = "the marker is sent from a select: it can be dropped or reordered and Wait would return (or hang) without the writes being applied"
+				continue
+			}
+			send = s.In.(*ssa.Send)
+		}
+		if send == nil {
+			if problem == "" {
+				problem = "Wait does not send a marker on setBuf"
+			}
+			L.Fail(ruleID, "Cache.Wait#send", problem, fn.Pos())
+			return
+		}
+		a := structValueAlloc(send.X)
+		lf := litFields(a)
+		if a == nil || len(lf["wait"]) != 1 || lf["wait"][0].Val != ssa.Value(mkc) {
+			L.Fail(ruleID, "Cache.Wait#send", "the item sent does not carry the fresh channel in its wait field", send.Pos())
+			return
+		}
+		if len(lf) != 1 {
+			L.Fail(ruleID, "Cache.Wait#send", "the marker item sets fields other than wait", send.Pos())
+			return
+		}
+		isRecv := func(in ssa.Instruction) bool {
+			for _, r := range recvsIn(fn) {
+				if r.In == in && r.Sel == nil && r.Chan == ssa.Value(mkc) {
+					return true
+				}
+			}
+			return false
+		}
+		bad1, p1 := mustPass(after(mkc), isInstr(send), nil)
+		bad2, p2 := mustPass(after(send), isRecv, nil)
+		if bad1 != nil {
+			L.Fail(ruleID, "Cache.Wait#send", "a path returns without sending the marker (block path "+pathString(p1)+")", instrPos(bad1))
+		} else if bad2 != nil {
+			L.Fail(ruleID, "Cache.Wait#recv", "Wait can return without receiving on its marker channel (block path "+pathString(p2)+")", instrPos(bad2))
+		} else {
+			L.Ok(ruleID, "Cache.Wait#send", "fresh unbuffered channel in Item.wait, blocking send on setBuf on every path", send.Pos())
+			L.Ok(ruleID, "Cache.Wait#recv", "returns only after <-wait", send.Pos())
+		}
+	})
+}
+
+// refusalsRule: lockedMap.Update/Set/get/Del answer "not done / not found" only behind one of the
+// documented refusal edges (absent key, conflict mismatch, shouldUpdate veto, nil item, and — for
+// reads only — an elapsed TTL). A refusal for any other reason makes a write vanish (the policy
+// still knows the key, so the buffered re-Set bounces as a duplicate) or hides a resident entry.
+func refusalsRule(c *Ctx, ruleID string) {
+	L, P := c.L, c.P
+	type lm struct {
+		name, keyPat, incPat string
+		verdict              int // index of the result that carries the verdict
+		refusedPat           string
+	}
+	for _, f := range []lm{
+		{"get", "p[1]", "p[2]", 1, "c[false]"},
+		{"Del", "p[1]", "p[2]", 0, "c[0]"},
+		{"Set", "fld[Key](p[1])", "fld[Conflict](p[1])", 0, "c[false]"},
+		{"Update", "fld[Key](p[1])", "fld[Conflict](p[1])", 1, "c[false]"},
+	} {
+		f := f
+		c.Group(ruleID, "lockedMap."+f.name, func() {
+			fn := P.Fn("ristretto", "lockedMap", f.name)
+			L.Analysed(fname(fn))
+			tb := newTB(fn)
+			lks := lookupsOf(fn, tb, dataPat)
+			if len(lks) != 1 {
+				L.Undecided(ruleID, "lockedMap."+f.name, fmt.Sprintf("expected exactly one lookup of m.data, found %d", len(lks)), fn.Pos())
+				return
+			}
+			lkT := tb.T(lks[0]).String()
+			allowed := []map[Edge]bool{
+				edgesWhere(fn, tb, "ok("+lkT+")", nil, false),
+				edgesWhere(fn, tb, "ne("+f.incPat+",fld[conflict]("+lkT+"))", nil, true),
+			}
+			reasons := "absent key, conflict mismatch"
+			if f.name == "Set" || f.name == "Update" {
+				allowed = append(allowed, edgesWhere(fn, tb, "call[dyn](fld[shouldUpdate](p[0]),_,_)", nil, false))
+				reasons += ", shouldUpdate veto"
+			}
+			if f.name == "Set" {
+				allowed = append(allowed, edgesWhere(fn, tb, "eq(p[1],c[nil])", nil, true))
+				reasons += ", nil item"
+			}
+			if f.name == "get" {
+				expired, _ := expiryEdges(fn, tb, "fld[expiration]("+lkT+")")
+				allowed = append(allowed, expired)
+				reasons += ", elapsed TTL"
+			}
+			nRef, undec := 0, false
+			isRefusal := func(in ssa.Instruction) bool {
+				r, ok := in.(*ssa.Return)
+				if !ok || in.Block() == fn.Recover {
+					return false
+				}
+				rv := returnValues(r)
+				if f.verdict >= len(rv) {
+					return false
+				}
+				t := tb.T(rv[f.verdict]).String()
+				if f.refusedPat == "c[false]" && t != "c[false]" && t != "c[true]" {
+					undec = true
+				}
+				return t == f.refusedPat
+			}
+			eachInstr(fn, func(in ssa.Instruction) {
+				if isRefusal(in) {
+					nRef++
+				}
+			})
+			if undec {
+				L.Undecided(ruleID, "lockedMap."+f.name, "the verdict result is not a constant on some return", fn.Pos())
+				return
+			}
+			bad, path := reach(entryPos(fn), isRefusal, nil, cutSet(allowed...))
+			if bad != nil {
+				L.Fail(ruleID, "lockedMap."+f.name, fmt.Sprintf("declines (returns %s) on a path that crosses none of the documented refusal edges {%s} (block path %s): a write to / read of a resident entry is refused for an undocumented reason", f.refusedPat, reasons, pathString(path)), instrPos(bad))
+				return
+			}
+			L.Ok(ruleID, "lockedMap."+f.name, fmt.Sprintf("%d declining return(s), each behind one of {%s}", nRef, reasons), fn.Pos())
+		})
+	}
 }
